@@ -15,6 +15,7 @@ def sh(cmd, cwd=None, timeout=3600):
 
 def build_demo(src_dir, wt, out):
     bt = open(os.path.join(src_dir, "build.txt")).read()
+    bt = "\n".join(l for l in bt.split("\n") if not l.lstrip().startswith("#"))      # flags named in comments are not flags
     flags = " ".join(sorted(set(re.findall(r"-D[A-Za-z_0-9=]+", bt))))
     san = "-fsanitize=address,undefined -fno-sanitize-recover=all" if "fsanitize" in bt else ""
     libs = " ".join(x for x in ("-llapack", "-lblas", "-lpthread") if x in bt)
